@@ -45,6 +45,25 @@ def run_property(prop, tier, program=None, quiet=False):
     return ctx, mod
 
 
+def _replay_seeded(job):
+    """one seeded change re-analysed on a patched scratch copy (worker process)"""
+    import shutil
+    import subprocess
+    import tempfile
+
+    prop, name, patch, repo = job
+    tmp = tempfile.mkdtemp(prefix="verif-thorough-")
+    try:
+        shutil.copytree(os.path.join(repo, "fastavro"), os.path.join(tmp, "fastavro"), ignore=shutil.ignore_patterns("__pycache__", "*.pyx", "*.so"))
+        r = subprocess.run(["patch", "-p1", "-s", "-i", patch], cwd=tmp, capture_output=True, text=True)
+        if r.returncode != 0:
+            return name, "no-apply", []
+        vctx, _ = run_property(prop, "quick", Program.from_dir(tmp))
+        return name, "ok", sorted({o["rule"] for o in vctx.violations()})
+    finally:
+        shutil.rmtree(tmp, ignore_errors=True)
+
+
 def thorough_extras(ctx, prop):
     """Thorough tier: (1) sensitivity witnesses - every firing variant of the self-test corpus that
     targets this property must flip the verdict to VIOLATION at the expected rule, every silent
@@ -82,26 +101,18 @@ def thorough_extras(ctx, prop):
         matrix = _json.load(open(os.path.join(seeded_dir, "RESULTS.json")))
     except Exception:
         matrix = {}
-    for name, rec in sorted(matrix.items()):
-        mine = [f for f in rec.get("fired", []) if f.startswith(prop + ".")]
-        if not mine:
-            continue
-        patch = os.path.join(seeded_dir, name, "patch.diff")
-        tmp = tempfile.mkdtemp(prefix="verif-thorough-")
-        try:
-            shutil.copytree(os.path.join(repo_path(), "fastavro"), os.path.join(tmp, "fastavro"), ignore=shutil.ignore_patterns("__pycache__", "*.pyx", "*.so"))
-            r = subprocess.run(["patch", "-p1", "-s", "-i", patch], cwd=tmp, capture_output=True, text=True)
-            if r.returncode != 0:
-                ctx.note(prop + ".seeded", f"seeded mutant {name} no longer applies to the tree (skipped)")
-                continue
-            vctx, _ = run_property(prop, "quick", Program.from_dir(tmp))
-            rules_now = sorted({o["rule"] for o in vctx.violations()})
-            if rules_now:
-                replayed.append(f"{name}: {rules_now}")
-            else:
-                lost.append(name)
-        finally:
-            shutil.rmtree(tmp, ignore_errors=True)
+    jobs = [(prop, name, os.path.join(seeded_dir, name, "patch.diff"), repo_path()) for name, rec in sorted(matrix.items()) if any(f.startswith(prop + ".") for f in rec.get("fired", []))]
+    if jobs:
+        from concurrent.futures import ProcessPoolExecutor
+
+        with ProcessPoolExecutor(max_workers=min(16, os.cpu_count() or 4, len(jobs))) as ex:
+            for name, status, rules_now in ex.map(_replay_seeded, jobs):
+                if status == "no-apply":
+                    ctx.note(prop + ".seeded", f"seeded mutant {name} no longer applies to the tree (skipped)")
+                elif rules_now:
+                    replayed.append(f"{name}: {rules_now}")
+                else:
+                    lost.append(name)
     for name in lost:
         errors.append(f"seeded mutant {name} was recorded as caught by {prop} but is no longer reported")
     ctx.extra["seeded_mutants_replayed"] = replayed
